@@ -378,10 +378,15 @@ class Judge:
         def fail(i, kind, e, g):
             return {"at": i, "kind": kind, "exp": e, "got": g, "res_class": resd}
 
+        rowkey = {}
         for i, e in enumerate(exp):
             if e["op"] == "collect" and e["res"]:
                 resd = True
                 ever |= set(e["res"])
+            if e["op"] == "weak":
+                rowkey[e["w"]] = e["a"]
+            elif e["op"] == "eph":
+                rowkey[e["e"]] = e["k"]
             if i >= len(obs):
                 how = res.get("panic") or res.get("abort")
                 if how is None:
@@ -401,8 +406,8 @@ class Judge:
                 return fail(i, "node freed while the mutator holds a handle on it", e, o)
             if "r" in e:
                 if o.get("r") != e["r"]:
-                    key = e.get("t") if e["op"] == "upgrade" else None
-                    if e["op"] in ("upgrade", "ephval", "wmget") and ever:
+                    key = {"upgrade": rowkey.get(e.get("w")), "ephval": rowkey.get(e.get("e")), "wmget": e.get("k")}.get(e["op"])
+                    if key is not None and key in ever:
                         self.drift("weak row on a resurrected key answered differently from the model (allowed by the property)")
                         return None
                     return fail(i, "result", e, o.get("r"))
